@@ -12,7 +12,8 @@ from pathlib import Path
 wt, out, sid = Path(sys.argv[1]), Path(sys.argv[2]), sys.argv[3]
 props = sys.argv[4:]
 dest = Path("/verif/seeded") / sid
-env = dict(os.environ, CARGO_TARGET_DIR=str(wt / "target"), CARGO_NET_OFFLINE="true")
+env = dict(os.environ, CARGO_TARGET_DIR=str(wt / "target"), CARGO_NET_OFFLINE="true", CARGO_PROFILE_DEV_DEBUG="0",
+           CARGO_PROFILE_TEST_DEBUG="0", CARGO_INCREMENTAL="0")
 
 
 def sh(cmd, **kw):
@@ -26,17 +27,18 @@ def clean():
 
 demo = (out / "demo.rs").read_text()
 head = "\n".join(demo.splitlines()[:15])
-m = re.search(r"`(tests/[A-Za-z0-9_]+\.rs)`", head)
-m2 = re.search(r"`mod tests` of (\S+\.rs)", head)
+m = re.search(r"`((?:[A-Za-z0-9_]+/)*tests/[A-Za-z0-9_]+\.rs)`", head)
+m2 = re.search(r"`mod tests` of `?([^\s`]+\.rs)", head)
 if m:
     place = ("file", m.group(1))
-    test_cmd = f"cargo test --offline --test {Path(m.group(1)).stem}"
+    pkg = "bevy_replicon_example_backend" if m.group(1).startswith("bevy_replicon_example_backend/") else "bevy_replicon"
+    test_cmd = f"cargo test --offline -p {pkg} --test {Path(m.group(1)).stem}"
 elif m2:
     place = ("append", m2.group(1))
+    pkg = "bevy_replicon_example_backend" if m2.group(1).startswith("bevy_replicon_example_backend/") else "bevy_replicon"
     modpath = m2.group(1).split("src/")[1][:-3].replace("/", "::")
-    names = re.findall(r"fn\s+(demo_\w+|\w+)\s*\(\)", demo)
     filt = re.search(r"tests::(demo_\w+)", demo)
-    test_cmd = f"cargo test --offline -p bevy_replicon --lib {filt.group(1) if filt else modpath + '::tests'}"
+    test_cmd = f"cargo test --offline -p {pkg} --lib {filt.group(1) if filt else modpath + '::tests'}"
 else:
     print("cannot determine demo placement"); sys.exit(2)
 
